@@ -194,13 +194,25 @@ def _s(v):
 def _run_seq(sim, plan, t, model, names):
     from breezy.git.transportgit import TransportRefsContainer
 
-    refs = TransportRefsContainer(t)
+    # Two long-lived containers (two processes that take turns, never concurrently) whose
+    # caches were filled before the sequence starts; an op goes through one of them, or
+    # through a fresh container.  The reference model stays purely sequential.
+    containers = [TransportRefsContainer(t), TransportRefsContainer(t.clone())]
+    for c in containers:
+        try:
+            c.get_packed_refs()
+            c.as_dict()
+        except Exception:  # noqa: BLE001 - priming only
+            pass
     prev = {}  # name -> earlier values
+    last_writer = {}  # container index -> another container changed refs since this one was created
     interesting = False
     for i, (kind, name, oldk, newi, stalei, fresh) in enumerate(plan["ops"]):
         nameb = name.encode()
+        which = (stalei + i) % 2
         if fresh:
-            refs = TransportRefsContainer(t.clone())
+            containers[which] = TransportRefsContainer(t.clone())
+        refs = containers[which]
         cur = model.target_value(kind, nameb)
         is_sym = cur is not None and cur.startswith(gitsim.SYMREF)
         cls = None
@@ -230,12 +242,23 @@ def _run_seq(sim, plan, t, model, names):
                 ["cas", "sequential", f"{OPNAME[kind]}:{cls}:raised:{type(e).__name__}"],
                 f"op {i} {OPNAME[kind]}({name}, old={_s(old)}) raised {type(e).__name__}: {e}",
             )
+        if fresh:
+            last_writer[which] = False
+        stale_possible = bool(last_writer.get(which))
         if cls == "zero-on-absent":
             want = got  # either reading of ZERO_SHA on an absent ref is accepted
             if got:
                 model.apply((kind, nameb, None, op[3]))
+        elif stale_possible and not got and model.copy().apply(op):
+            # The property is a safety statement ("succeeds ONLY IF ..."): a container whose
+            # cached view predates another process's update may refuse an update that would
+            # have been legal.  It must then have changed nothing (checked below).
+            want = False
+            sim.probe("spurious_refusal_with_stale_view")
         else:
             want = model.apply(op)
+        if got:
+            last_writer[1 - which] = True  # the other container's cached view is now out of date
         if cls == "stale-old" and cur is not None or cls == "exists":
             interesting = True
         sim.event("op", i, OPNAME[kind], name, cls, got)
